@@ -2,7 +2,7 @@
 import itertools
 
 ID = 'C06'
-LEAN_MODULES = ['C06', 'C06b', 'C06c']
+LEAN_MODULES = ['C06', 'C06b', 'C06c', 'C06d']
 RULE = ('one case = 2-4 real nodes over loopback RPC; bulk writes (put_many/del_many shapes: 1-300 documents under one stamp through the real multi_put/multi_del) and, for every operation kind (put, del) and every subset S of the other nodes standing for the replicas the level selected (sizes 0..n-1: None, One, Two, Three, '
         'quorum-sized, All), every subset of S is made unable to acknowledge (its next storage mutation fails, or it has crashed and refuses connections while still selected, or - separate stream - it stays SILENT: its storage call writes and never returns, and the call must still come back with the consistency error within the advertised timeout), the write is issued through the real handle_consistency_distribution, and immediately afterwards '
         'Storage::get is called on the issuer and on every selected node. Checked: Ok => the document (or a newer record) is readable from the issuer and from EVERY selected node; otherwise the error is '
